@@ -80,6 +80,7 @@ BOUNDS = {
         "F": "L=2..3, member {absent,def,block} x inherit target {static, context['upN'], context.get('upN') absent, bound to None} at every non-last level x chaining {none,next,self}",
         "H": "L<=4, the attribute at every level absent / string / None / 0 / '' / False / [], every body chained, read through self/local/parent/next .attr",
         "I": "L<=3, member {absent, def, def calling parent} x attribute x chaining {none,next}; every level declares def card() (local.uri, self.uri, uri of context's parent/next, local/self/parent member, self/local attribute); whole page + get_def('card') and get_def(member) of every level by render_unicode() and render_context()",
+        "direct": "a non-leaf template whose inherit expression consults local (module / attr / uri) x chain depth 3-4 x leaf value; an error_handler rendering another inheriting template on the Context it was given: 3 layout relations x 3 raise sites x depth 2-3",
         "J": "histories on one lookup: prefix [leaf] (two member names, 5 kinds each) or [leaf, mid] (one member name, chaining {none,next}) whose last level inherits from ${context['upN']}; 9 bases (each member absent/def/block) under uris of their own; 73 renders per prefix on one set of Template objects such that every ordered pair of distinct bases occurs once as consecutive renders; every render compared with the reference (= a fresh lookup); + 3 histories per prefix in which the inherit target of one or two renders names no template (lookup exception, later renders unaffected)",
         "L": "one lookup holding 32 chains (16 of two levels, 16 of three) whose relatively-naming level lives in /, /a, /a/b, /ab and names b.html, ab.html, bb.html or a/b.html - directory and target strings that coincide when concatenated, same target in different directories; 993 renders on one lookup such that every ordered pair of chains is consecutive once; each compared with the reference (= a fresh lookup)",
         "M": "L<=3, one member name {absent, def, cached def, cached def calling parent, block, cached block, cached block calling parent} x chaining {none,next}, read through self/local/parent/next in every body; dict cache backend (mc/c06_cache.py) emptied per case; two renders on one lookup, the reference keeping (template, name) -> first output",
@@ -635,6 +636,7 @@ def plan(tier, seed):
         for sh in range(ns):
             jobs.append({"kind": "chains", "tier": tier, "seed": seed, "grid": gi, "shard": sh, "nshards": ns, "size": n})
     jobs.append({"kind": "grid", "tier": tier, "seed": seed})
+    jobs.append({"kind": "direct", "tier": tier, "seed": seed})
     jobs.append({"kind": "collisions", "tier": tier, "seed": seed, "size": 40000})
     npre = len(j_prefixes(tier))
     nsj = 4 if tier == "quick" else 16
@@ -645,8 +647,30 @@ def plan(tier, seed):
     return jobs
 
 
+def run_direct(st):
+    from mc import c06_direct as D
+
+    n = 0
+    for c in D.cases():
+        r = D.run(c)
+        n += 1
+        st.states += 1
+        st.traces += 1
+        st.evaluations += 2
+        st.transitions += 2
+        st.nontrivial += 1
+        st.oracles["direct:" + c["kind"]] += 1
+        st.outcomes[("direct", c["kind"], "ok" if r is None else "bad")] += 1
+        if r is not None:
+            st.violation(r[0], dict(c, kind="direct", dkind=c["kind"]), r[1], expected=r[2], observed=r[3])
+    st.extra["direct_cases"] = n
+
+
 def run_job(job):
     st = Stats()
+    if job["kind"] == "direct":
+        run_direct(st)
+        return st
     t0 = time.process_time()
     w0 = time.time()
     try:
@@ -734,6 +758,11 @@ def _run_job(job, st):
 def replay(case):
     core.bind_repo()
     st = Stats()
+    if case["kind"] == "direct":
+        from mc import c06_direct as D
+
+        r = D.run(dict(case, kind=case["dkind"]))
+        return (True, "holds") if r is None else (False, "reproduced: %r" % (r,))
     if case["kind"] == "unreplayable":
         return None, "seen on Template objects shared with earlier chains of a worker; no replay"
     if case["kind"] == "grid":
